@@ -425,4 +425,11 @@ def R6_event(run):
                           "v1 Traded event reports non-zero transfer fees", loc=h.loc(), detail="0, 0")
 
 
-RULES = [R1_step_fee, R2_split, R3_booking_side, R4_swap_transfers, R5_collect_protocol_fees, R6_event]
+def R7_cross_checks(run):
+    run.title("R7", 'the v2 wrapping around the curve swap keeps input = curve amount + fees on the input mint (C16.R1 instances)')
+    from rules.common import RuleProxy
+    from rules import C16
+    C16.R1_swap_wiring(RuleProxy(run, 'R7'))
+
+
+RULES = [R1_step_fee, R2_split, R3_booking_side, R4_swap_transfers, R5_collect_protocol_fees, R6_event, R7_cross_checks]
